@@ -1198,6 +1198,106 @@ let fst_o (o : ('a * 'b) outcome) : 'a outcome =
 
 let mode_of s = if s = "d" then Debug else Release
 
+(* ---------- cvt, charsets, FDSelect, custom encodings (Model/CffSets.v) *)
+let srecs_show (l : z list list) : string =
+  plus (List.map (fun r -> String.concat ":" (List.map z_to_string r)) l)
+let srecs_parse (s : string) : z list list =
+  if s = "." || s = "" then []
+  else List.concat_map (fun item ->
+      let (k, r) = match String.index_opt item '*' with
+        | Some i -> (int_of_string (String.sub item 0 i), sub_after item (i + 1))
+        | None -> (1, item) in
+      let rcd = List.map z_of_string (split_on ':' r) in
+      List.init k (fun _ -> rcd)) (split_on '+' s)
+let srecs_count (s : string) : int =
+  if s = "." || s = "" then 0
+  else List.fold_left (fun a item -> a + (match String.index_opt item '*' with
+      | Some i -> int_of_string (String.sub item 0 i) | None -> 1)) 0 (split_on '+' s)
+let chs_show ((fmt, recs) : z * z list list) : string = z_to_string fmt ^ "/" ^ srecs_show recs
+let fds_show (f : fdselect) : string =
+  z_to_string f.fs_fmt ^ "/" ^ srecs_show f.fs_recs ^ "/" ^ z_to_string f.fs_sentinel
+let set_model (kind : string) (n : z) (d : z list) : string =
+  let c = table_ctxt d in
+  match kind with
+  | "cvt" -> pwp (fst_o (cvt_read c n)) join (fun t -> Ok (cvt_write t))
+               (fun b -> out_s join (fst_o (cvt_read (table_ctxt b) (zi (List.length b)))))
+  | "chs" -> pwp (fst_o (charset_read c n)) chs_show (fun t -> Ok (charset_write t))
+               (fun b -> out_s chs_show (fst_o (charset_read (table_ctxt b) n)))
+  | "fds" -> pwp (fst_o (fdselect_read c n)) fds_show fdselect_write
+               (fun b -> out_s fds_show (fst_o (fdselect_read (table_ctxt b) n)))
+  | "enc" -> pwp (fst_o (encoding_read c)) chs_show encoding_write
+               (fun b -> out_s chs_show (fst_o (encoding_read (table_ctxt b))))
+  | _ -> "n/a"
+let setw_model (kind : string) (n : z) (v : string) : string =
+  let wr (w : z list outcome) (rd : z list -> string) =
+    match w with Ok b -> "w=" ^ hex_of_bytes b ^ ";r=" ^ rd b | o -> "w=" ^ w_s o in
+  match kind with
+  | "cvt" ->
+    let vs = nums v in
+    wr (Ok (cvt_write vs)) (fun b -> out_s join (fst_o (cvt_read (table_ctxt b) (zi (2 * List.length vs)))))
+  | "chs" ->
+    (match split_on '/' v with
+     | [fmt; rs] ->
+       wr (Ok (charset_write (z_of_string fmt, srecs_parse rs)))
+         (fun b -> out_s chs_show (fst_o (charset_read (table_ctxt b) n)))
+     | _ -> failwith "chs value")
+  | "fds" ->
+    (match split_on '/' v with
+     | [fmt; rs; sen] ->
+       if srecs_count rs > 30000 then "n/a"
+       else
+         wr (fdselect_write { fs_fmt = z_of_string fmt; fs_recs = srecs_parse rs; fs_sentinel = z_of_string sen })
+           (fun b -> out_s fds_show (fst_o (fdselect_read (table_ctxt b) n)))
+     | _ -> failwith "fds value")
+  | _ -> "n/a"
+
+(* the property on the implementation's output, independent of the model *)
+let rec ref_covers (recs : z list list) (covered : int) (n : int) : bool =
+  match recs with
+  | [] -> n <= covered
+  | r :: rest -> covered < n && ref_covers rest (covered + z_to_int (List.nth r 1) + 1) n
+let judge_set (ip : (string * string) list) : (string * string) option =
+  let get k = try Some (List.assoc k ip) with Not_found -> None in
+  match get "r", get "w", get "r2" with
+  | Some r, Some w, _ when starts_with "ok:" r && starts_with "err:" w ->
+    Some ("refusal", "a parsed value was refused by its writer: " ^ w)
+  | Some r, Some _, Some r2 when starts_with "ok:" r && r2 <> r ->
+    Some ("stability", "parse, write, parse is not stable: " ^ r2)
+  | Some r, Some _, None when starts_with "ok:" r -> Some ("stability", "no second parse")
+  | _ -> None
+let judge_setw (kind : string) (n : int) (v : string) (ip : (string * string) list) : (string * string) option =
+  let get k = try Some (List.assoc k ip) with Not_found -> None in
+  let expect_ok shown =
+    match get "w", get "r" with
+    | Some w, _ when starts_with "err:" w -> Some ("refusal", "a value within the format limits was refused: " ^ w)
+    | _, Some r when r <> "ok:" ^ shown -> Some ("roundtrip", "read(write(v)) <> v: " ^ r)
+    | _, None -> Some ("roundtrip", "nothing read back")
+    | _ -> None in
+  match kind with
+  | "cvt" -> expect_ok (if v = "-" then "-" else v)
+  | "chs" ->
+    (match split_on '/' v with
+     | [fmt; rs] ->
+       let recs = srecs_parse rs in
+       let valid =
+         n >= 1 && (if fmt = "0" then List.length recs = n - 1 else ref_covers recs 0 (n - 1)) in
+       if valid then expect_ok (fmt ^ "/" ^ srecs_show recs) else None
+     | _ -> None)
+  | "fds" ->
+    (match split_on '/' v with
+     | [fmt; rs; sen] ->
+       let cnt = srecs_count rs in
+       if fmt = "0" then (if cnt = n then expect_ok (fmt ^ "/" ^ srecs_show (srecs_parse rs) ^ "/0") else None)
+       else if cnt > 65535 then
+         (match get "w" with
+          | Some "err:BadValue" -> None
+          | Some w -> Some ("truncation", "more than 65535 FDSelect ranges were not refused with BadValue: " ^ (if String.length w > 40 then String.sub w 0 40 else w))
+          | None -> None)
+       else expect_ok (fmt ^ "/" ^ srecs_show (srecs_parse rs) ^ "/" ^ sen)
+     | _ -> None)
+  | _ -> None
+
+
 let run (input : string) : string =
   let p = Array.of_list (split_on '|' input) in
   match p.(0) with
@@ -1325,6 +1425,8 @@ let run (input : string) : string =
   | "filed" -> "n/a"
   | "filec" -> "n/a"
   | "ivd" | "vrl" | "ivs" | "cff2f" -> "n/a"
+  | "set" -> set_model p.(1) (z_of_string p.(2)) (bytes_of_hex p.(3))
+  | "setw" -> setw_model p.(1) (z_of_string p.(2)) p.(3)
   | "cg" -> cg_model (mode_of p.(1)) p.(2) p.(3) p.(4)
   | "cms" -> cms_model (p.(2) = "o") p.(3)
   | "cmsrd" -> cmsrd_model (p.(2) = "o") (bytes_of_hex p.(3))
@@ -1650,6 +1752,8 @@ let judge (input : string) (impl : string) (model : string) : verdict =
        | Some (c, w) -> viol c w
        | None -> if model = "n/a:big" then Agree else same ())
     | "cmaprd" -> (match judge_cmaprd p.(2) impl with Some (c, w) -> viol c w | None -> same ())
+    | "set" -> (match judge_set ip with Some (c, w) -> viol c w | None -> same ())
+    | "setw" -> (match judge_setw p.(1) (int_of_string p.(2)) p.(3) ip with Some (c, w) -> viol c w | None -> if model = "n/a" then Agree else same ())
     | "ivd" -> (match judge_ivd p.(1) impl with Some (c, w) -> viol c w | None -> if model = "n/a" then Agree else same ())
     | "vrl" -> (match judge_vrl p.(1) impl with Some (c, w) -> viol c w | None -> if model = "n/a" then Agree else same ())
     | "ivs" -> (match judge_ivs p.(1) impl with Some (c, w) -> viol c w | None -> if model = "n/a" then Agree else same ())
@@ -1733,7 +1837,7 @@ let tag (input : string) (out : string) : string =
   let k = List.hd p in
   let st_fmt s = match String.index_opt s ':' with Some i -> "-f" ^ String.sub s 0 i | None -> "" in
   let sub = match k with
-    | "lay" | "rd" | "file" | "dict" | "dictw" -> "-" ^ List.nth p 1
+    | "lay" | "rd" | "file" | "dict" | "dictw" | "set" | "setw" -> "-" ^ List.nth p 1
     | "filed" | "cff2f" -> "-" ^ Filename.basename (List.nth p 1)
     | "ivd" ->
       (* histogram by flag / shape *)
